@@ -507,6 +507,14 @@ func (fd *Client) BatchGetItem(ctx context.Context, input *dynamodb.BatchGetItem
 	responses := make(map[string][]map[string]types.AttributeValue, len(input.RequestItems))
 	unprocessed := make(map[string]types.KeysAndAttributes, len(input.RequestItems))
 
+	for _, reqs := range input.RequestItems {
+		// a request that breaks the expression rules is rejected as a whole, it is not a matter of unprocessed keys
+		err := validateExpressionAttributes(reqs.ExpressionAttributeNames, nil, aws.ToString(reqs.ProjectionExpression))
+		if err != nil {
+			return nil, mapKnownError(err)
+		}
+	}
+
 	for tableName, reqs := range input.RequestItems {
 		unprocessedKeys := make([]map[string]types.AttributeValue, 0, len(reqs.Keys))
 		responses[tableName] = make([]map[string]types.AttributeValue, 0, len(reqs.Keys))
